@@ -8,6 +8,7 @@ package main
 //   nopre / nopost: the callback is nil
 //   virt=root: custom ChildCount/Child present one virtual root (the zero Node) whose children are the root blocks
 //   virt=rev : custom functions present every node's children in reverse order
+//   virt=childonly / virt=countonly : only Child (reversed order) or only ChildCount (at most two children) is supplied
 // Trace events: "pre:<label>:<parentlabel>:<blocklabel>:<index>" with labels = pre-order numbers in the (virtual) tree,
 // -1 for "none".
 
@@ -107,10 +108,23 @@ func walkTrace(in []byte, param string) (tree string, trace []string, sig string
 	case "rev":
 		cc = func(n cm.Node) int { return n.ChildCount() }
 		ch = func(n cm.Node, i int) cm.Node { return n.Child(n.ChildCount() - 1 - i) }
+	case "childonly":
+		// only Child supplied: children in reverse order, default count
+		ch = func(n cm.Node, i int) cm.Node { return n.Child(n.ChildCount() - 1 - i) }
+	case "countonly":
+		// only ChildCount supplied: at most the first two children are presented, default Child
+		cc = func(n cm.Node) int {
+			if c := n.ChildCount(); c < 2 {
+				return c
+			}
+			return 2
+		}
 	}
 	ecc, ech := cc, ch
 	if ecc == nil {
 		ecc = cm.Node.ChildCount
+	}
+	if ech == nil {
 		ech = cm.Node.Child
 	}
 	walkRoots := roots
@@ -250,8 +264,15 @@ func judgeC18(in []byte, param string, _ int) string {
 			return n.Child(i)
 		}
 		walkRoots = []cm.Node{{}}
-	case "rev":
+	case "rev", "childonly":
 		ech = func(n cm.Node, i int) cm.Node { return n.Child(n.ChildCount() - 1 - i) }
+	case "countonly":
+		ecc = func(n cm.Node) int {
+			if c := n.ChildCount(); c < 2 {
+				return c
+			}
+			return 2
+		}
 	}
 	var want []string
 	for _, root := range walkRoots {
